@@ -43,7 +43,9 @@ theorem pnp_readBit : PNoPanic readBit := by
   intro b; cases b <;> simp [readBit, np_eof, np_ok]
 
 theorem pnp_takeBits (n : Nat) : PNoPanic (takeBits n) := by
-  intro b; unfold takeBits; split <;> simp [np_eof, np_ok]
+  intro b; unfold takeBits; split
+  · exact np_eof
+  · exact np_ok _
 
 theorem pnp_readU (n : Nat) : PNoPanic (readU n) := by
   intro b; unfold readU
@@ -158,11 +160,13 @@ theorem pnp_readPartitions (pbits : Nat) (ns : List Nat) : PNoPanic (readPartiti
 theorem np_decLayout (bs order po : Nat) : NoPanic (decLayout bs order po) := by
   unfold decLayout
   split
-  · have : decZeroPartitionLen = .err "InvalidPartitionOrder" := rfl
-    rw [this]; exact np_err _
+  · exact np_err _
   · split
-    · exact np_err _
-    · exact np_ok _
+    · have : decZeroPartitionLen = .err "InvalidPartitionOrder" := rfl
+      rw [this]; exact np_err _
+    · split
+      · exact np_err _
+      · exact np_ok _
 
 theorem pnp_readResidual (bs order : Nat) : PNoPanic (readResidual decLayout bs order) := by
   intro b; unfold readResidual
@@ -234,6 +238,22 @@ theorem bitsToNat_lt (b : Bits) : bitsToNat b < 2 ^ b.length := by
   have := gen b 0
   simpa [bitsToNat] using this
 
+theorem splitExact_length (n : Nat) (b t r : Bits) (h : splitExact n b = some (t, r)) : t.length = n := by
+  induction n generalizing b t r with
+  | zero => simp [splitExact] at h; rw [h.1]; rfl
+  | succ n ih =>
+    cases b with
+    | nil => simp [splitExact] at h
+    | cons x xs =>
+      simp only [splitExact] at h
+      cases hs : splitExact n xs with
+      | none => rw [hs] at h; simp at h
+      | some p =>
+        obtain ⟨t', r'⟩ := p
+        rw [hs] at h
+        simp only [Option.some.injEq, Prod.mk.injEq] at h
+        rw [← h.1]; simp [ih xs t' r' hs]
+
 theorem readS5_lt (b : Bits) (v : Int) (r : Bits) (h : readS 5 b = .ok (v, r)) : v < 16 := by
   unfold readS at h
   cases ht : takeBits 5 b with
@@ -243,10 +263,13 @@ theorem readS5_lt (b : Bits) (v : Int) (r : Bits) (h : readS 5 b = .ok (v, r)) :
     rw [ht] at h
     simp only [Except.ok.injEq, Prod.mk.injEq] at h
     unfold takeBits at ht
-    split at ht
-    · simp at ht
-    · simp only [Except.ok.injEq, Prod.mk.injEq] at ht
-      have hlen : bits.length = 5 := by rw [← ht.1]; simp; omega
+    cases hs : splitExact 5 b with
+    | none => rw [hs] at ht; simp at ht
+    | some p =>
+      obtain ⟨t', r'⟩ := p
+      rw [hs] at ht
+      simp only [Except.ok.injEq, Prod.mk.injEq] at ht
+      have hlen : bits.length = 5 := by rw [← ht.1]; exact splitExact_length 5 b t' r' hs
       rw [← h.1]
       match bits, hlen with
       | [s, a, b', c, d], _ =>
